@@ -407,7 +407,11 @@ class BuiltinMixin:
                 return self.seq_method(selfv, name, args, kwargs, node, self_expr)
             if isinstance(ty, TList):
                 if name == "append":
-                    self._rebind(self_expr, ty.append(selfv, self._elem(args[0], ty.elem)), node)
+                    x = self._elem(args[0], ty.elem)
+                    new = ty.append(selfv, x)
+                    # ghost view elems(): theory-valid by construction of the list
+                    self.st.pc.append(specfn.list_elems(new).t == z3.SetAdd(specfn.list_elems(selfv).t, x.t))
+                    self._rebind(self_expr, new, node)
                     return None
                 if name == "copy":
                     return selfv
